@@ -5,6 +5,7 @@ set -e
 cd "$(dirname "$0")"
 export CARGO_NET_OFFLINE=true CARGO_TARGET_DIR="$(pwd)/.cache/target"
 mkdir -p .cache/ocaml .cache/target evidence replays
+python3 tools/translate.py "${VERIF_REPO:-/repo}" coq/gen/Generated.v >/dev/null
 ( cd coq && coq_makefile -f _CoqProject -o Makefile >/dev/null && timeout 3300 make -j16 )
 cp coq/model.ml coq/model.mli ocaml/driver.ml .cache/ocaml/
 ( cd .cache/ocaml && ocamlfind ocamlopt -w -a model.mli model.ml driver.ml -o driver )
